@@ -20,8 +20,9 @@ from fractions import Fraction
 from . import tlc
 from . import resid
 
-QUICK_LEVELS = [1, 2, 3, 4, 5]
-THOROUGH_LEVELS = [1, 2, 3, 4, 5, 6, 7]
+QUICK_LEVELS = [1, 2, 3, 4, 5, 8]
+THOROUGH_LEVELS = [1, 2, 3, 4, 5, 6, 7, 8]
+ALWAYS_COMPLETE = {5, 8}      # small families (precedence chains, literals, degenerate conditionals, ...): never sampled
 INVARIANTS = ["ParseRenderId", "WellTyped", "LazyRefinesStrict", "Emit", "EmitHeader"]
 
 
@@ -65,7 +66,7 @@ def sample(cases, cap: int, seed: int):
     out = []
     for lvl in sorted(by):
         lst = sorted(by[lvl], key=case_key)
-        if len(lst) > cap:
+        if len(lst) > cap and lvl not in ALWAYS_COMPLETE:
             rnd = random.Random(seed * 1000 + lvl)
             lst = rnd.sample(lst, cap)
         out.extend(lst)
